@@ -417,9 +417,15 @@ func GetSignalCells(
 	bitsInStream := uint(len(bitStream) * 8)
 	bitsLeft := bitsInStream - pos
 
-	// Find the number of signal cells, ignoring any padding.
+	// The number of signal cells is given by the cell mask in the header.  Any bits
+	// that follow the signal data are padding and are ignored.  The bit stream may be
+	// too short to hold all the cells, in which case only the ones that fit are read
+	// (and if the multiple message flag is not set, that's an error - see below).
 
-	numSignalCells := utils.GetNumberOfSignalCells(bitStream, pos, bitsPerCell)
+	numSignalCells := header.NumSignalCells
+	if cellsThatFit := int(bitsLeft / bitsPerCell); numSignalCells > cellsThatFit {
+		numSignalCells = cellsThatFit
+	}
 
 	if header.MultipleMessage {
 		// The message doesn't contain all the signal cells but there should be
